@@ -154,3 +154,65 @@ Theorem C09_level_guard_is_generated : forall f a y z, level_bad f a = true ->
   gen_V (fnl_of f) (Q2R a) (Q2R y) (Q2R z) = ValueErr.
 Proof. exact level_guard_is_generated. Qed.
 Print Assumptions C09_level_guard_is_generated.
+
+
+(* ====================================================================================== *)
+(* TEXT TO APPEND TO props/C09.v                                                           *)
+(* replaces the NOT-proved bullet "C09_perm is stated on rows ... AFTER binning":           *)
+(*   independent of row order, from the raw columns:  C09_perm_full  (CmpBias.run = the     *)
+(*   whole model bin_feature -> keys -> compute_bias; ALL inputs with equally long columns;  *)
+(*   Leibniz equality of the table / of the error class), C09_perm_keys, C09_perm_full_numeric,*)
+(*   C09_perm_full_string                                                                   *)
+(* ====================================================================================== *)
+From Coq Require Import QArith List Permutation String.
+Import ListNotations.
+From MD Require Import lib.QLists model.Functionals model.Binning model.Bias
+  proofs.BinningProps proofs.BiasProps proofs.BinningPerm proofs.BiasPerm corr.CmpBias.
+
+(* bin_feature + key extraction is permutation-equivariant *)
+Theorem C09_perm_keys : forall ft n_bins p n,
+  feat_len n ft -> Permutation p (seq 0 n) ->
+  grouping_rel n p (grouping_of ft n_bins) (grouping_of (permute_feat p ft) n_bins).
+Proof. exact grouping_of_perm. Qed.
+Print Assumptions C09_perm_keys.
+
+(* the result is independent of row order: permuting the rows of (y_obs, y_pred columns, feature, weights)
+   gives the same table, rows in the same order - every feature type, all ten bin methods, 1..k models *)
+Theorem C09_perm_full : forall c p,
+  wf_case c -> Permutation p (seq 0 (List.length (b_y c))) ->
+  run (permute_case p c) = run c.
+Proof. exact compute_bias_perm_full. Qed.
+Print Assumptions C09_perm_full.
+
+Theorem C09_perm_full_numeric : forall f level kind feature n_bins m interior ys models weights p,
+  List.length feature = List.length ys -> cols_ok (List.length ys) models weights ->
+  Permutation p (seq 0 (List.length ys)) ->
+  match bin_numeric kind feature n_bins m interior,
+        bin_numeric kind (permute None p feature) n_bins m interior with
+  | NOk n _ _ rows, NOk n' _ _ rows' =>
+      compute_bias f level (permute 0%Q p ys) (map (permute 0%Q p) models)
+        (Some (numeric_keys rows', n')) (option_map (permute 0%Q p) weights)
+      = compute_bias f level ys models (Some (numeric_keys rows, n)) weights
+  | NNanEdges, NNanEdges => True
+  | NErr e, NErr e' => e = e'
+  | _, _ => False
+  end.
+Proof. exact compute_bias_perm_numeric. Qed.
+Print Assumptions C09_perm_full_numeric.
+
+Theorem C09_perm_full_string : forall f level kind names feature n_bins ys models weights p,
+  List.length feature = List.length ys -> cols_ok (List.length ys) models weights ->
+  Permutation p (seq 0 (List.length ys)) ->
+  match bin_string kind names feature n_bins,
+        bin_string kind names (permute None p feature) n_bins with
+  | SOk n _ label _ bins, SOk n' _ label' _ bins' =>
+      compute_bias f level (permute 0%Q p ys) (map (permute 0%Q p) models)
+        (Some (string_keys kind names label' bins', n')) (option_map (permute 0%Q p) weights)
+      = compute_bias f level ys models (Some (string_keys kind names label bins, n)) weights
+  | SErr e, SErr e' => e = e'
+  | _, _ => False
+  end.
+Proof. exact compute_bias_perm_string. Qed.
+Print Assumptions C09_perm_full_string.
+
+
